@@ -1,7 +1,7 @@
 """C09 -- merge decisions losslessly describe the merge and follow the published schema."""
 import os, sys, json, copy
 import core, pyspec, gennb
-import c04_coq, c04_valcorr, c04_cases, c09_spec, c09_model
+import c04_coq, c04_valcorr, c04_cases, c09_spec, c09_model, c09_cases
 from props import c04 as c04mod
 
 PROP = 'C09'
@@ -86,6 +86,9 @@ def build_tasks(chk, tier, ref):
         b, l, rm = gennb.gen_triple(r, conflict_bias=0.5, minor=r.choice([0, 2, 4]), ncells=r.choice([0, 1, 2, 3]))
         b, l, rm = c04_cases.vary_minors(r, b, l, rm)
         triples.append(('minors%d%d%d' % (b['nbformat_minor'], l['nbformat_minor'], rm['nbformat_minor']), b, l, rm))
+    # concurrent inserts at one position (identical / one run extending the other / unrelated) with a trailing removal by
+    # nobody, local, remote or both, in every sequence of a notebook (c09_cases)
+    triples += c09_cases.agreed_insert_triples(r, tier)
     good = []; skipped = 0
     for name, b, l, rm in triples:
         ks = [c04mod.declared_key(x) for x in (b, l, rm)]
@@ -96,7 +99,8 @@ def build_tasks(chk, tier, ref):
     tasks = []; meta = []
     for ti, (name, b, l, rm) in enumerate(good):
         cfgs = [mt[ti % 2]]
-        if tier == 'quick': cfgs += [cli[0]] + [r.choice(cli) for _ in range(2)]
+        if name.startswith('agreedins:') and tier == 'quick': cfgs += [r.choice(cli)] if ti % 2 == 0 else []
+        elif tier == 'quick': cfgs += [cli[0]] + [r.choice(cli) for _ in range(2)]
         else: cfgs += [mt[(ti + 1) % 2]] + [cli[(ti * 3 + j) % len(cli)] for j in range(3)] + [r.choice(cli)]
         for c in cfgs:
             tasks.append({'op': 'merge', 'base': b, 'local': l, 'remote': rm, 'args': c, 'c09': True}); meta.append((name, c))
@@ -149,7 +153,7 @@ def run(tier, seed):
     vc = c04_valcorr.run(chk, core.REPO, 600 if tier == 'quick' else 4000, 100 if tier == 'quick' else 500)
     chk.cov.update({
         'evaluations': judged, 'distinct_nontrivial': len(nontrivial),
-        'rule': 'merge_notebooks on valid notebook triples (hand-made per conflict kind at every minor, fixture triples, gennb.gen_triple with forced conflicts, triples whose three minors are pairwise different) under mergetool (both transient settings) and sampled CLI configurations; every clause of the property judged on the returned decisions with nbdime\'s applier and an independent applier (pyspec.spec_patch, grouping by path); non-trivial = at least two decisions or a conflict, distinct by canonical JSON of (triple, configuration)',
+        'rule': 'merge_notebooks on valid notebook triples (hand-made per conflict kind at every minor, fixture triples, gennb.gen_triple with forced conflicts, triples whose three minors are pairwise different, concurrent inserts at one position of each notebook sequence -- identical, extending, unrelated -- followed by a removal on no / one / both sides) under mergetool (both transient settings) and sampled CLI configurations; every clause of the property judged on the returned decisions with nbdime\'s applier and an independent applier (pyspec.spec_patch, grouping by path); non-trivial = at least two decisions or a conflict, distinct by canonical JSON of (triple, configuration)',
         'input_distribution': hist, 'merges_that_raised_(C03)': raised, 'invalid_input_triples_skipped': skipped,
         'traces_validated_against_impl': t1 + vc.get('validator_cases', 0) + mc.get('sortkey_cases', 0),
         'validator_on_decision_lists': t1, 'validator_on_decisions_mismatches': mism,
